@@ -84,6 +84,8 @@ macro_rules! dim {
             && lp(pb.midpoint(pa)) == want(&|i| b[i] + (a[i] - b[i]) / 2)
             && lp($P::centroid(&[pa, pb, pa])) == want(&|i| (a[i] + b[i] + a[i]) / 3)
             && lp($P::centroid(&[pa])) == want(&|i| a[i])
+            && lp($P::centroid(&[pa, pb])) == want(&|i| (a[i] + b[i]) / 2) && lp($P::centroid(&[pb, pa])) == want(&|i| (a[i] + b[i]) / 2)
+            && lp($P::centroid(&[pa, pb, pb, pa])) == want(&|i| (a[i] + b[i] + b[i] + a[i]) / 4)
             && { let mut m = pa; m.mul_assign_element_wise(pb); lp(m) == want(&|i| a[i] * b[i]) }
             && { let mut m = pa; m.add_assign_element_wise(c(k)); lp(m) == want(&|i| a[i] + k) }
             && { let mut m = pa; m.mul_assign_element_wise(c(k)); lp(m) == want(&|i| a[i] * k) }
